@@ -32,6 +32,7 @@ type RecvS struct {
 	Name      string
 	Transport string
 	LongLived bool
+	Tracer    string // tracer mode of this receiver's telemetry settings (see tracer_test.go)
 }
 
 // ROp is one receive operation.
@@ -59,6 +60,7 @@ func genR(t *rapid.T) RScript {
 			Name:      fmt.Sprintf("r%d", i),
 			Transport: rapid.SampledFrom([]string{"", "grpc", "http"}).Draw(t, "transport"),
 			LongLived: rapid.Bool().Draw(t, "longlived"),
+			Tracer:    genTracer(t),
 		})
 	}
 	no := rapid.IntRange(1, 12).Draw(t, "ops")
@@ -119,6 +121,7 @@ func runR(s RScript) (nontrivial bool, k string, f *vt.Finding) {
 		set := receivertest.NewNopSettings(recvType)
 		set.ID = component.NewIDWithName(recvType, r.Name)
 		set.TelemetrySettings = tel.NewTelemetrySettings()
+		applyTracer(&set.TelemetrySettings, r.Tracer)
 		rep, err := receiverhelper.NewObsReport(receiverhelper.ObsReportSettings{ReceiverID: set.ID, Transport: r.Transport, LongLivedCtx: r.LongLived, ReceiverCreateSettings: set})
 		if err != nil {
 			return false, k, vt.Failf("harness/new-obsreport", "NewObsReport: %v", err)
@@ -145,11 +148,11 @@ func runR(s RScript) (nontrivial bool, k string, f *vt.Finding) {
 			}
 			switch op.Signal {
 			case sig.Logs:
-				ctxs[ev.Op] = rep.StartLogsOp(context.Background())
+				ctxs[ev.Op] = rep.StartLogsOp(callerCtx(s.Recv[op.Recv].Tracer))
 			case sig.Traces:
-				ctxs[ev.Op] = rep.StartTracesOp(context.Background())
+				ctxs[ev.Op] = rep.StartTracesOp(callerCtx(s.Recv[op.Recv].Tracer))
 			case sig.Metrics:
-				ctxs[ev.Op] = rep.StartMetricsOp(context.Background())
+				ctxs[ev.Op] = rep.StartMetricsOp(callerCtx(s.Recv[op.Recv].Tracer))
 			}
 		} else {
 			ctx, ok := ctxs[ev.Op]
@@ -191,6 +194,9 @@ func runR(s RScript) (nontrivial bool, k string, f *vt.Finding) {
 		prev = cur
 	}
 	cR.Class(fmt.Sprintf("signals:%d", len(signals)), fmt.Sprintf("receivers:%d", len(s.Recv)))
+	for _, r := range s.Recv {
+		cR.Class("tracer:" + r.Tracer)
+	}
 	if overlapped {
 		cR.Class("overlapping-ops")
 	}
